@@ -39,6 +39,7 @@ struct CaseParams {
   int pct_depth = 2;
   int p_switch = 200;
   int p_stale = 0;
+  int p_eintr = 0;  // futex_wait early-return probability (x1000); 0 = never (and no decision is consumed)
 };
 
 struct Target {
@@ -53,6 +54,7 @@ struct Target {
   size_t prog_len = 192;
   bool allow_weak = true;       // may run cases with stale reads
   int weak_percent = 50;        // share of cases in weak mode
+  int eintr_percent = 0;        // share of cases in which futex_wait may return early (EINTR / spurious 0)
   const char* nontrivial_rule = "";
 };
 
